@@ -210,6 +210,11 @@ def seq_family(tier="quick"):
                      [{"machine": "m", "name": "e%d" % i, "input": {"i": i}} for i in (1, 2, 3)]))
     out.append(scenario("seq-express", chain(("T", Task("f1")), Z), workers={"f1": {"*": OK(1)}}, typ="EXPRESS", family="seq-express"))
     out.append(scenario("seq-fail", chain(("A", Pass()), ("F", Fail())), family="seq-fail"))
+    d = chain(("W", Wait(10)), Z); d["TimeoutSeconds"] = 4
+    out.append(scenario("seq-exec-timeout-in-wait", d, family="seq-exec-timeout-in-wait"))
+    d = chain(("T", Task("f1", Catch=CATCH_ALL)), Z); d["TimeoutSeconds"] = 4
+    out.append(scenario("seq-exec-timeout-in-task", d, workers={"f1": {"*": NONE}}, family="seq-exec-timeout-in-task"))
+    out.append(scenario("seq-exec-timeout-express", d, workers={"f1": {"*": NONE}}, family="seq-exec-timeout-express", typ="EXPRESS"))
     # a raw start event as an external client would publish it (no Execution fields)
     sc = scenario("seq-raw-start", dt, workers={"f1": {"*": OK(1)}}, family="seq-raw-start")
     sc["starts"] = []
